@@ -25,6 +25,7 @@ ITEMS = [
     Item('Flow.api', BA.sym_flow_api, [], BA.B + 'flow.py::Flow.results'),
     Item('_process', BA.sym__process, [], BA.B + 'datastream_processor.py::DataStreamProcessor._process'),
     Item('helpers', BA.sym_helpers, [], 'dataflows/helpers/row_processor.py::row_processor.process_row'),
+    Item('iterable_loader.errors', BA.sym_iterable_loader_errors, [], 'dataflows/helpers/iterable_loader.py::iterable_loader.handle_iterable'),
     Item('conditional', BA.sym_conditional, [], 'dataflows/processors/conditional.py::conditional._process'),
     Item('DataStreamProcessor.defaults', S.sym_dsp_base, [], BA.B + 'datastream_processor.py::DataStreamProcessor.process_resource'),
     Item('safe_process', BA.sym_safe_process, [], BA.B + 'datastream_processor.py::DataStreamProcessor.safe_process'),
